@@ -162,6 +162,16 @@ class _Rewriter(ast.NodeTransformer):
     #       `name = []` + `for x in it: if cond: name.append(elt)`; that loop is then cut like any loop under
     #       contract (the contract must give `name` a type in types=, so that it is havoc'd at the loop head).
     #       Additive: assignments without such a contract are untouched.
+    def visit_AnnAssign(self, node):
+        # rule 7 also for the annotated form `name: T = [comprehension]` (additive: only when such a loop contract exists)
+        if isinstance(node.value, ast.ListComp) and isinstance(node.target, ast.Name) and node.simple:
+            q = self._cur_func()
+            k = self.loop_counter.get(("comp", q), 0) + 1
+            if LOOP_SPECS.get((self.relpath, q, f"comp{k}")) is not None:
+                return self.visit_Assign(ast.copy_location(ast.Assign([node.target], node.value), node))
+        self.generic_visit(node)
+        return node
+
     def visit_Assign(self, node):
         v = node.value
         if isinstance(v, ast.ListComp) and len(node.targets) == 1 and isinstance(node.targets[0], ast.Name):
